@@ -64,6 +64,11 @@ Why(r) ==
             ELSE IF rows[1][1] # ToString(Cardinality(all)) THEN "count-disturbed"
             ELSE IF rows[1][2] # ToString(SumSet(all, SizeOf)) THEN "sum-of-sizes-disturbed"
             ELSE IF rows[1][3] # ToString(SumSet(files \ bad, Lines)) THEN "sum-over-readable-files-disturbed"
+            \* (an empty cell is no value: the smallest / largest line count is taken over the files that could be read)
+            ELSE IF files \ bad # {} /\ rows[1][5] # ToString(CHOOSE m \in { Lines(n) : n \in files \ bad } : \A n \in files \ bad : m <= Lines(n))
+                 THEN "min-over-readable-files-disturbed"
+            ELSE IF files \ bad # {} /\ rows[1][6] # ToString(CHOOSE m \in { Lines(n) : n \in files \ bad } : \A n \in files \ bad : m >= Lines(n))
+                 THEN "max-over-readable-files-disturbed"
             ELSE "ok")
         ELSE IF { NodeByPath(rows[i][1]) : i \in 1 .. Len(rows) } # all \/ Len(rows) # Cardinality(all) THEN "row-lost"
         ELSE IF r.path = "metadata" THEN
